@@ -24,6 +24,7 @@ Lemma parse_atom_f_eq b rest : parse_atom_f b rest = parse_atom b rest.
 Proof.
   unfold parse_atom_f, parse_atom. destruct (b2n b <? 128); [reflexivity|].
   rewrite decode_size_f_eq. destruct (decode_size (b2n b) rest) as [[size rest']|]; [|reflexivity].
+  destruct (N.of_nat (length rest') <? size); [reflexivity|].
   rewrite take_spec. reflexivity.
 Qed.
 
@@ -39,7 +40,11 @@ Proof.
   destruct (byte_eqb b0 xff) eqn:F; [discriminate D|]. split; [reflexivity|].
   destruct (byte_eqb b0 x80) eqn:G.
   - inversion D; subst. destruct (byte_eqb_spec b0 x80) as [->|]; [|discriminate G].
-    split; reflexivity.
+    split; [reflexivity|].
+    rewrite parse_atom_f_eq. unfold parse_atom. change (b2n x80 <? 128) with false. cbv iota.
+    change (decode_size (b2n x80) rest) with (Some (0, rest)).
+    cbv beta iota zeta.
+    destruct (N.ltb_spec (N.of_nat (length rest)) 0%N) as [Hq|_]; [lia|]. reflexivity.
   - rewrite <- parse_atom_f_eq in D.
     destruct (parse_atom_f b0 tl) as [[a' r']|] eqn:P; [|discriminate D]. inversion D; subst.
     split; [|reflexivity].
